@@ -1,9 +1,9 @@
 -- GENERATED from /repo sources by tools/extract.py on every check; do not edit
 namespace Elvis.Gen.Ndl
 /-- alternatives of `get_type`'s `alt((..))`, in source order -/
-def tagAlt : List (List Char) := [['T', 'e', 'm', 'p', 'l', 'a', 't', 'e'], ['N', 'e', 't', 'w', 'o', 'r', 'k', 's'], ['N', 'e', 't', 'w', 'o', 'r', 'k'], ['I', 'P', 't', 'y', 'p', 'e'], ['I', 'P'], ['M', 'a', 'c', 'h', 'i', 'n', 'e', 's'], ['M', 'a', 'c', 'h', 'i', 'n', 'e'], ['P', 'r', 'o', 't', 'o', 'c', 'o', 'l', 's'], ['P', 'r', 'o', 't', 'o', 'c', 'o', 'l'], ['A', 'p', 'p', 'l', 'i', 'c', 'a', 't', 'i', 'o', 'n', 's'], ['A', 'p', 'p', 'l', 'i', 'c', 'a', 't', 'i', 'o', 'n']]  -- Template Networks Network IPtype IP Machines Machine Protocols Protocol Applications Application
+def tagAlt : List (List Char) := [['T', 'e', 'm', 'p', 'l', 'a', 't', 'e'], ['N', 'e', 't', 'w', 'o', 'r', 'k', 's'], ['N', 'e', 't', 'w', 'o', 'r', 'k'], ['I', 'P'], ['M', 'a', 'c', 'h', 'i', 'n', 'e', 's'], ['M', 'a', 'c', 'h', 'i', 'n', 'e'], ['P', 'r', 'o', 't', 'o', 'c', 'o', 'l', 's'], ['P', 'r', 'o', 't', 'o', 'c', 'o', 'l'], ['A', 'p', 'p', 'l', 'i', 'c', 'a', 't', 'i', 'o', 'n', 's'], ['A', 'p', 'p', 'l', 'i', 'c', 'a', 't', 'i', 'o', 'n']]  -- Template Networks Network IP Machines Machine Protocols Protocol Applications Application
 /-- the combinator applied to each alternative: nom's `tag_no_case` or the local `keyword` -/
-def tagMatcher : String := "tag_no_case"
+def tagMatcher : String := "keyword"
 /-- variants of `enum DecType`, in source order -/
 def decTypeVariants : List (List Char) := [['T', 'e', 'm', 'p', 'l', 'a', 't', 'e'], ['N', 'e', 't', 'w', 'o', 'r', 'k', 's'], ['N', 'e', 't', 'w', 'o', 'r', 'k'], ['I', 'P'], ['M', 'a', 'c', 'h', 'i', 'n', 'e', 's'], ['M', 'a', 'c', 'h', 'i', 'n', 'e'], ['P', 'r', 'o', 't', 'o', 'c', 'o', 'l', 's'], ['P', 'r', 'o', 't', 'o', 'c', 'o', 'l'], ['A', 'p', 'p', 'l', 'i', 'c', 'a', 't', 'i', 'o', 'n', 's'], ['A', 'p', 'p', 'l', 'i', 'c', 'a', 't', 'i', 'o', 'n']]
 /-- arms of `DecType::from` (`i.to_lowercase()` => variant); anything else hits the fall-through -/
